@@ -6,6 +6,7 @@
 
 int main(void)
 {
+  g_nt = (struct numtext_ghost){0}; /* dfcc starts statics in an arbitrary state */
   econf_file *ef = malloc(sizeof(econf_file));
   __CPROVER_assume(ef != NULL);
   size_t num = nondet_size_t();
